@@ -375,6 +375,15 @@ def call_method(I, recv, name, args, kwargs, fr):
             if recv.is_bytes:
                 p.assume(z3.And(e >= 0, e <= 255))
             return VInt(e)
+        if name == 'join' and recv.is_bytes and isinstance(args[0], (VList, VTuple)) and \
+                all(isinstance(x, VSeq) for x in args[0].items):
+            items = args[0].items
+            if not items:
+                return VSeq(z3.Empty(SeqS), recv.kind)
+            out = items[0].t
+            for x in items[1:]:
+                out = z3.Concat(out, recv.t, x.t)
+            return VSeq(out, recv.kind)
         if name == 'rstrip' and recv.is_bytes:
             r = I.call_spec('rstrip_zeros', VSeq(recv.t, 'list'))
             return VSeq(r.t, recv.kind)
